@@ -442,3 +442,22 @@ Proof.
       unfold heu_emax, C_INT_MIN, C_INT_MAX; lia. }
   do 3 eexists. split; [vm_compute; reflexivity|]. split; [vm_compute; discriminate|]. repeat split; vm_compute; reflexivity.
 Qed.
+
+(* ---- calls made directly on the writer (coq/C08/Direct.v = the decoder of the correspondence run, kind 3) ----
+   SmodelsConvert never writes one (atom, name) symbol twice, the format allows it: a table may use one name for several atoms and list a line
+   again, also in the table of a later step.  What the reader does with ANY table is `c08_filter` (a)/(b) (every symbol that is not a converted
+   and filtered predicate is delivered, in order, unchanged - the name table keeps the first binding for lookups only) and `c08_heuristic`
+   (the heuristic lands on the FIRST atom with the target name); Direct.v composes the same reader model (read_back) with the writer's
+   acceptance automaton without the converter, and agrees with V.C08.Model.run_case on every other kind of case. *)
+Require V.C08.Direct.
+Theorem c08_direct_extends : forall k r, k = 0 \/ k = 1 \/ k = 2 -> V.C08.Direct.run_case (k :: r) = V.C08.Model.run_case (k :: r).
+Proof. intros k r [-> | [-> | ->]]; destruct r as [|e [|h [|f r]]]; reflexivity. Qed.
+Print Assumptions c08_direct_extends.
+
+(* init(inc); begin; output(a,[1]); end; begin; output(a,[1]); output(a,[2]); output(_heuristic(a,sign,1,0),[3]); end  read back with
+   cHeuristic + filter: the repeated line `1 a` of step 2 and the second atom named `a` are both delivered, the heuristic goes to atom 1 *)
+Example c08_direct_repeated_symbols :
+  V.C08.Direct.run_case [3; 0; 1; 1; 1; 1; 2; 8; 1; 97; 1; 1; 3; 2; 8; 1; 97; 1; 1; 8; 1; 97; 1; 2; 8; 22; 95; 104; 101; 117; 114; 105; 115; 116; 105; 99;
+                         40; 97; 44; 115; 105; 103; 110; 44; 49; 44; 48; 41; 1; 3; 3]
+  = enc_calls [CInit true; CBegin; COutput [97] [1]; CEnd; CBegin; COutput [97] [1]; COutput [97] [2]; CHeuristic 1 1 1 0 [3]; CEnd].
+Proof. vm_compute. reflexivity. Qed.
